@@ -526,14 +526,18 @@ def validate_traces(ctx, spec_dir, module, cfg, trace_file, classify, max_reject
             all_rej += rej
     ctx.cov["traces_validated_against_impl"] += tot_acc + len(all_rej)
     ctx.cov["events_validated"] += tot_events
-    if all_rej and property_level is not None:
-        # The rejecting spec is implementation-shaped.  Only the property-level spec decides (DESIGN R1): validate the
-        # whole file against it; what it accepts although the I-level spec rejected is recorded as DRIFT, never as a violation.
+    if property_level is not None:
+        # The spec just used is implementation-shaped; only the property-level spec decides (DESIGN R1).  What it rejected is recorded as DRIFT, never as a
+        # violation -- and what it ACCEPTED is not a verdict either: an implementation-level trace spec need not constrain every result the property talks about
+        # (round-6 seeded change C17f: Trace_SplayI compares the node structure after exists() but not its return value, and the property-level validation used to
+        # run only after an implementation-level rejection).  The whole file is therefore always validated against the property-level spec as well.
         pdir, pmod, pcfg = property_level
-        ctx.cov["drift_executions"] = ctx.cov.get("drift_executions", 0) + len(all_rej)
-        bad0, at0 = all_rej[0]
-        ctx.notes.append("DRIFT: %d+ executions are not behaviours of %s (first: event %d: %s); verdict taken from %s" %
-                         (len(all_rej), module, at0 + 1, bad0[min(at0, len(bad0) - 1)][:160], pmod))
+        ctx.cov["ilevel_executions_validated"] = ctx.cov.get("ilevel_executions_validated", 0) + tot_acc
+        if all_rej:
+            ctx.cov["drift_executions"] = ctx.cov.get("drift_executions", 0) + len(all_rej)
+            bad0, at0 = all_rej[0]
+            ctx.notes.append("DRIFT: %d+ executions are not behaviours of %s (first: event %d: %s); verdict taken from %s" %
+                             (len(all_rej), module, at0 + 1, bad0[min(at0, len(bad0) - 1)][:160], pmod))
         ctx.cov["traces_validated_against_impl"] -= tot_acc + len(all_rej)
         ctx.cov["events_validated"] -= tot_events
         return validate_traces(ctx, pdir, pmod, pcfg, trace_file, classify, max_rejects=max_rejects, shards=shards,
